@@ -6,6 +6,7 @@ hash …) `code_cfg_sound` stops checking.
 -/
 import SteelVerif.C11.Props
 import SteelVerif.C11.GenCfg
+import SteelVerif.C11.GenPrim
 namespace SteelVerif.C11
 
 /-- The configuration extracted from /repo is the one for which the property is proved. -/
@@ -13,6 +14,10 @@ theorem code_cfg_sound : codeCfg.sound = true := by decide
 
 /-- `equal?` as the code currently implements it is structural. -/
 theorem eq_structural_code : EqStructural codeCfg := eq_structural codeCfg code_cfg_sound
+
+/-- The collection primitives of /repo still have the shape the model P (`Prim.lean`) transcribes: operand order of the
+    four `hm_union` branches, `symmetric_difference` for `hashset-difference`, the order of the checks of `bounds`, … -/
+theorem code_prims_modelled : codePrim = PrimShape.modelled := by decide
 
 theorem hash_respects_eq_code : HashRespectsEq codeCfg := hash_respects_eq codeCfg code_cfg_sound
 
